@@ -103,10 +103,14 @@ fn gen_plan(ch: &mut Ch) -> Plan {
         2 => 20 + ch.below(300, "e.noise.mid") as usize,
         _ => 1000 + ch.below(1001, "e.noise.many") as usize,
     };
+    let mut many_keys = false;
     if noise_n > 0 {
         let span = (total_gap + 40 * MS).max(1);
         let step = (span / noise_n as u64).max(1);
-        let nkeys = 1 + ch.below(12, "e.noise.keys") as usize;
+        // few hot keys, or one distinct key per request (a capacity-bounded
+        // cache only shows under many distinct keys)
+        let nkeys = if ch.chance(3, 10, "e.noise.distinct") { noise_n } else { 1 + ch.below(12, "e.noise.keys") as usize };
+        many_keys = nkeys > 64;
         let dgs: Vec<Vec<u8>> = (0..noise_n)
             .map(|i| {
                 let p = vec![seg("noise"), format!("{}", i % nkeys).into_bytes()];
@@ -139,7 +143,7 @@ fn gen_plan(ch: &mut Ch) -> Plan {
     }
     let _ = gap_windows;
     let spec = WorldSpec {
-        server: ServerCfg { budget, expiry_ns: expiry, check_wire: false, snapshots: false, feed_all_types: false, record_held: true },
+        server: ServerCfg { budget, expiry_ns: expiry, check_wire: false, snapshots: false, feed_all_types: false, record_held: true, held_every: if many_keys { 97 } else { 1 }, held_always_from: 100 },
         resources,
         clients,
         max_events: 40_000,
@@ -221,7 +225,7 @@ pub fn run(ch: &mut Ch, verbose: bool) -> Outcome {
                         viol.push(Violation::new("C20", "reclaimed", format!("handler holds an entry {:?} no request ever touched", h)));
                     }
                 }
-                if prev_held + 1 > held.len() {
+                if plan.spec.server.held_every <= 1 && prev_held + 1 > held.len() {
                     max_purged = max_purged.max(prev_held + 1 - held.len());
                 }
                 prev_held = held.len();
@@ -399,6 +403,17 @@ pub fn run(ch: &mut Ch, verbose: bool) -> Outcome {
     stats.add("fault.noise-request", noise as u64);
     if noise >= 1000 {
         stats.hit("probe.c20.1000-or-more-intervening-requests");
+    }
+    {
+        let mut ks = std::collections::BTreeSet::new();
+        for a in log.iter().filter(|a| a.tag.kind == TagKind::Noise) {
+            if let Some(k) = &a.key {
+                ks.insert((a.from, k.clone()));
+            }
+        }
+        if ks.len() >= 1000 {
+            stats.hit("probe.c20.1000-or-more-distinct-other-keys");
+        }
     }
     out.violations = viol;
     out.hash = r.trace.h.0;
